@@ -15,6 +15,10 @@ CORPUS = [
     "IF (0) { DISPLAY(1) } ELSE IF (\"\") { DISPLAY(2) } ELSE { DISPLAY(3) }\nIF (NULL) { DISPLAY(4) }\n",
     "REPEAT \"3\" TIMES { DISPLAY(1) }\n", "FOR EACH x IN 5 { DISPLAY(x) }\n",
     "n <- 3\nREPEAT n TIMES { n <- 0\nDISPLAY(n) }\n",
+    "i <- 0\nREPEAT UNTIL (t(1, i >= 3)) { i <- i + 1\nIF (i == 2) { CONTINUE }\nDISPLAY(i) }\n",
+    "i <- 0\nREPEAT UNTIL (t(1, i >= 2)) { i <- i + 1\nCONTINUE }\nDISPLAY(i)\n",
+    "FOR EACH x IN [1, 2, 3] { IF (t(x, x == 2)) { CONTINUE }\nDISPLAY(x) }\n",
+    "REPEAT t(1, 3) TIMES { IF (t(2, TRUE)) { BREAK } }\nREPEAT t(3, 2) TIMES { DISPLAY(t(4, 0)) }\n",
 ]
 
 
